@@ -86,7 +86,9 @@ def main(argv=None):
     specs = []
     for inst in hmod.instances(a.tier):
         func, cfg = inst[0], inst[1]
-        lim = inst[2] if len(inst) > 2 else {}
+        lim = dict(inst[2]) if len(inst) > 2 else {}
+        if a.tier == "thorough":
+            lim.setdefault("xcheck", 2)  # cvc5 second opinion on up to 2 solver-decided obligations per instance
         if a.only and not re.search(a.only, func):
             continue
         specs.append({"prop": prop, "module": hmod.__name__, "func": func, "cfg": cfg, "limits": lim})
@@ -105,6 +107,7 @@ def main(argv=None):
     tot = dict(paths=0, obligations=0, discharged=0, syntactic=0, queries=0, solver_s=0.0, reach=0,
                infeasible=0, shortcut=0, paths_with_obligations=0)
     functions, samples, per_harness = set(), [], []
+    xtot = {"tried": 0, "agree": 0, "unknown": 0, "disagree": 0}
     exhaustive = True
     for r in results + extra_results:
         sp = r["spec"]
@@ -122,6 +125,12 @@ def main(argv=None):
         if len(samples) < 6:
             samples += r["samples"][:1]
         exhaustive = exhaustive and r["exhaustive"]
+        xc = r.get("xcheck") or {}
+        for k in ("tried", "agree", "unknown"):
+            xtot[k] += xc.get(k, 0)
+        for dsg in xc.get("disagree", []):
+            xtot["disagree"] += 1
+            inconclusive.append("SOLVER-DISAGREEMENT %s obligation=%s path=%s (z3 unsat, cvc5 sat)" % (tag, dsg["name"], dsg["prefix"]))
         per_harness.append({"harness": sp["func"], "cfg": sp["cfg"], "paths": r["paths"],
                             "obligations": r["obligations"], "discharged": r["discharged"],
                             "undecided": len(r["undecided"]), "wall_s": r["wall_s"],
@@ -238,6 +247,8 @@ def main(argv=None):
                 "trusted_base": meta.get("trusted", []) + ["z3 %s" % _z3v(), "symx engine (/verif/symx)",
                                                             "numpy object-array semantics"],
                 "rlimit_per_query": _rlimit(),
+                "second_solver_cvc5": dict(xtot, note="thorough tier: up to 2 z3-unsat queries per harness instance re-decided by "
+                                           "cvc5 (3 s each); unknown/timeouts are not verdicts, a cvc5 `sat` fails the run"),
             },
         }
         os.makedirs(os.path.join(HERE, "evidence"), exist_ok=True)
